@@ -142,17 +142,25 @@ Definition methods_okb : bool :=
 Lemma methods_ok : methods_okb = true.
 Proof. vm_compute. reflexivity. Qed.
 
+Lemma method_ok_sound : forall all v tm self other, method_okb all v tm = true ->
+  exists s, lookup_schema all (tm_op tm) v = Some s /\ schema_okb s = true /\
+            promote_method all v tm self other
+              = promote_eager s (if tm_swapped tm then [other; self] else [self; other]).
+Proof.
+  intros all v tm self other T. unfold method_okb in T. unfold promote_method.
+  destruct (lookup_schema all (tm_op tm) v) as [s|]; [|discriminate].
+  exists s. split; [reflexivity|]. split; [exact T|reflexivity].
+Qed.
+
 Theorem tensor_method_is_op : forall tm v self other,
   In tm OV.Gen.C12Operators.tensor_methods -> In v opsets ->
   exists s, lookup_schema OV.Gen.Schemas.all (tm_op tm) v = Some s /\ schema_okb s = true /\
             promote_method OV.Gen.Schemas.all v tm self other
               = promote_eager s (if tm_swapped tm then [other; self] else [self; other]).
 Proof.
-  intros tm v self other Htm Hv.
+  intros tm v self other Htm Hv. apply method_ok_sound.
   pose proof methods_ok as T. unfold methods_okb in T. rewrite forallb_forall in T. specialize (T _ Htm).
-  rewrite forallb_forall in T. specialize (T _ Hv). unfold method_okb in T. unfold promote_method.
-  destruct (lookup_schema OV.Gen.Schemas.all (tm_op tm) v) as [s|]; [|discriminate].
-  exists s. split; [reflexivity|]. split; [exact T|reflexivity].
+  rewrite forallb_forall in T. exact (T _ Hv).
 Qed.
 
 (* ---- a literal on either side of a binary operator with a shared type variable gets the tensor's type in all
@@ -183,6 +191,13 @@ Definition shared_names : list string :=
 Lemma shared_table : forallb (fun n => forallb (shared_at OV.Gen.Schemas.all n) opsets) shared_names = true.
 Proof. vm_compute. reflexivity. Qed.
 
+Lemma shared_at_sound : forall all n v, shared_at all n v = true ->
+  exists s, lookup_schema all n v = Some s /\ binary_sharedb s = true.
+Proof.
+  intros all n v T. unfold shared_at in T. destruct (lookup_schema all n v) as [s|]; [|discriminate].
+  exists s. split; [reflexivity|exact T].
+Qed.
+
 Theorem comparison_literal_side_irrelevant : forall n v, In n shared_names -> In v opsets ->
   exists s, lookup_schema OV.Gen.Schemas.all n v = Some s /\ forall l d k,
     promote_static s [ATensor d k; ALit l] = OK [OKeep (ATensor d k); OCastLike l (ir_default_dtype l) d] /\
@@ -191,7 +206,6 @@ Theorem comparison_literal_side_irrelevant : forall n v, In n shared_names -> In
     promote_eager s [ALit l; ATensor d k] = OK [OConst l d; OKeep (ATensor d k)].
 Proof.
   intros n v Hn Hv. pose proof shared_table as T. rewrite forallb_forall in T. specialize (T _ Hn).
-  rewrite forallb_forall in T. specialize (T _ Hv). unfold shared_at in T.
-  destruct (lookup_schema OV.Gen.Schemas.all n v) as [s|]; [|discriminate].
-  exists s. split; [reflexivity|]. apply binary_shared_either_side. exact T.
+  rewrite forallb_forall in T. specialize (T _ Hv). apply shared_at_sound in T. destruct T as [s [E B]].
+  exists s. split; [exact E|]. apply binary_shared_either_side. exact B.
 Qed.
